@@ -29,7 +29,8 @@ THEOREMS = [
     # historical, about format_summary before c070c47 (`formatSummaryOld`)
     "Docstring.summary_fallback_touches_source", "Docstring.summary_fallback_overwrites_class_summary",
     "Docstring.summary_failure_unreported_counterexample", "Docstring.blanked_docstring_fallback_counterexample",
-    "Docstring.field_failure_text_lost_counterexample",
+    "Docstring.field_failure_shows_text", "Docstring.field_fallback_shows_text", "Docstring.field_failure_text_lost_old_counterexample",
+    "Docstring.registry_restored", "Docstring.parse_independent_of_previous", "Docstring.registry_leak_old_counterexample",
     # the further wrappers (round 3)
     "Docstring.pyval_total", "Docstring.pyval_failure_reported", "Docstring.signature_total",
     "Docstring.signature_failure_reported", "Docstring.type_total", "Docstring.constant_total",
@@ -71,8 +72,7 @@ ASSUMPTIONS = [
     "termination and exception behaviour INSIDE the epytext/docutils/napoleon parsers and twisted's flattener is not proved; "
     "it is exercised by the real stream with a per-case alarm",
     "no ParsedDocstring subclass in /repo overrides get_summary/get_toc (checked by introspection each run)",
-    "objects have distinct full names (System.parse_errors and the reportErrors key use fullName()): FALSE at parse time for a class "
-    "defined twice in a module — open finding report:dedup-by-name:redefined-object-unreported, checked by the builder stream",
+    "objects are identities, in the model and (since b867a76) in the key of reportErrors; parse_errors still lists names",
     "in format_docstring every field body whose handler formats it is formatted once, in call order; `type` fields: stored as "
     "parsed_type for an Attribute, formatted only with an argument elsewhere; `ivar/cvar/var` not formatted. The rest of the "
     "FieldHandler dispatch and the warnings filed through Field.report / 'Missing field name' are C09's (generators avoid "
@@ -341,7 +341,7 @@ def canon_stan(st, role: Optional[str] = None) -> str:
         return "broken"
     if isinstance(st, str):
         return "sigbroken" if st == "(...)" else "str?"
-    if isinstance(st, Tag) and st.tagName == "code" and not st.attributes and safe_text(st) == "":
+    if isinstance(st, Tag) and st.tagName == "code" and not st.attributes:
         return "code"
     if isinstance(st, Tag):
         cls = st.attributes.get("class")
@@ -380,8 +380,13 @@ def default_ty(k: int) -> Dict[str, Any]:
     return {"M": "r-", "S": "r%d" % (1000 + k)}
 
 
-class FakeDoc:
+class FakeDoc(list):
+    """what a stub's to_node() returns; as a list of docutils Text nodes it is readable by node2stan.gettext"""
+
     def __init__(self, pd) -> None:
+        from docutils import nodes
+        text = pd.spec.get("X", "")
+        list.__init__(self, [nodes.Text(text)] if text else [])
         self.pd = pd
 
     def walk(self, visitor) -> None:
@@ -576,6 +581,9 @@ def request_of(spec: Dict[str, Any]) -> str:
         t += ["pd", str(k), p["S"], p["N"], p["W"], p["T"], fields_tok(p["F"])]
     for k, p in sorted(spec.get("ty", {}).items()):
         t += ["ty", str(k), p["M"], p["S"]]
+    for k, p in sorted(spec.get("pd", {}).items()):
+        if p.get("X"):
+            t += ["nt", str(k), enc(p["X"])]
     if "plain" in spec:
         t += ["plain"] + list(spec["plain"])
     for text, p in spec.get("plainfor", {}).items():
@@ -812,6 +820,8 @@ def field_variants() -> List[Tuple[List[Tuple[int, int, int]], Dict[int, Any], D
         ([(1, 10, 1)], {10: dict(d(10), N="xni")}, {}),
         ([(1, 10, 1)], {}, {10: {"M": "xo8", "S": "r1010"}}),
         ([(0, 10, 1)], {10: dict(d(10), S="xo9")}, {}),
+        ([(0, 10, 1)], {10: dict(d(10), S="xo9", X="the separator, a form feed")}, {}),
+        ([(0, 10, 1), (0, 11, 2)], {10: dict(d(10), S="xo9", X="  \n "), 11: dict(d(11), S="xo6", N="xni", X="unreachable")}, {}),
         ([(0, 10, 1), (1, 11, 2), (0, 12, 4)], {10: dict(d(10), S="xo9"), 11: dict(d(11), S="xo6")},
          {11: {"M": "r-", "S": "xo6"}}),
         ([(1, 10, 1), (1, 11, 2)], {11: dict(d(11), N="xo4")}, {}),
@@ -1278,8 +1288,13 @@ def fault_oracle(ctx: Ctx, w: World, spec: Dict[str, Any], trace) -> None:
                     b = spec.get("pd", {}).get(bk) or default_pd(bk)
                     s = (spec.get("ty", {}).get(bk) or default_ty(bk))["S"] if (isty and pt_applies) else b["S"]
                     got = t["fields"][j] if j < len(t["fields"]) else "missing"
-                    if s[0] == "x" and got != "broken":
-                        fail("field:no-broken-placeholder", "a field body's to_stan raised and the field does not show the BROKEN placeholder")
+                    typed = isty and pt_applies
+                    text = "" if typed or b["N"] != "r" else b.get("X", "")
+                    want = "pre:" + enc(text) if text.strip() else "broken"
+                    if s[0] == "x" and got != want:
+                        fail("field:render-failure-text-lost" if got == "broken" else "field:fallback-differs",
+                             "a field body's to_stan raised: the field must show its text as plain text (the BROKEN placeholder only "
+                             "when it has no node tree or no visible text); shown %s" % got[:40])
                     if s[0] == "r" and got != "o" + s[1:]:
                         fail("field:lost", "a field body rendered fine but is not what the handler received")
     ys = [t["tok"] for t in trace if t["obj"] == BYSTANDER]
@@ -1526,6 +1541,10 @@ REGRESSION_DOCS = [
     "Split.\n\nArgs:\n    a: The separator, a form feed ('\x0c') by default.",
     "Summary.\n\n" + "x" * 10001,
     "A diagram.\n\n.. figure:: diagram.png\n\n   .. default-role:: literal\n",
+    # SEVERE docutils messages (seeded C08-r4-2: a reader that raises ParseError for them without storing it)
+    "Intro.\n\n.. include:: /nonexistent-c08-file\n\nOutro.",
+    "Intro.\n\n.. csv-table::\n   :file: /nonexistent-c08-file\n",
+    "Intro.\n\n.. raw:: html\n   :file: /nonexistent-c08-file\n",
     "Doc.\n\n@param x the widget\n\nand a \ufffe char",
     "Summary with \ufffe char.\n\nBody.",
     "Summary with \x0c char.",
@@ -1708,7 +1727,11 @@ class Observer:
             for j, b in enumerate(bodies):
                 k = base + 9 + j
                 fs.append((0, k, 0))
-                self.spec["pd"][k] = dict(default_pd(k), S=self.stan_out(b, linker, k))
+                self.spec["pd"][k] = dict(default_pd(k), S=self.stan_out(b, linker, k), N=self.node_out(b))
+                if self.spec["pd"][k]["N"] == "r":
+                    from pydoctor import node2stan
+                    with quiet():
+                        self.spec["pd"][k]["X"] = "".join(node2stan.gettext(b.to_node()))
             if i in ATTRS:
                 # handle_type stores the body of a `type` field of an Attribute's docstring as obj.parsed_type (not formatted)
                 for j, f in enumerate(x for x in val.fields if x.tag() == "type"):
@@ -1933,8 +1956,17 @@ def real_oracle(ctx: Ctx, w: World, fmt: str, pt: int, x: int, doc: str, td: int
     if any(t["op"] == "s" and t["obj"] == x and t["raised"] is None and t["tok"] == "sum=broken" for t in trace) and hold not in errs_now:
         fail("summary:render-failure-unreported", "the summary's renderer failed ('Broken description' is shown in the listings), the body "
              "rendered, and nothing was reported against the object (format_summary calls safe_to_stan with report=False)")
+    def field_has_text(body) -> bool:
+        from pydoctor import node2stan
+        try:
+            with quiet():
+                return bool("".join(node2stan.gettext(body.to_node())).strip())
+        except Hang:
+            raise
+        except Exception:
+            return False
     for t in shown:
-        if "broken" in t.get("fields", []):
+        if any(f == "broken" and field_has_text(bd) for f, bd in zip(t.get("fields", []), t.get("field_bodies", []))):
             fail("field:render-failure-text-lost", "the body of a field could not be rendered: the failure is reported, the field shows "
                  "'Broken description' and its text appears nowhere on the page (Field.format's fallback is the BROKEN placeholder)")
             break
@@ -2228,7 +2260,7 @@ def run(ctx: Ctx) -> None:
         ctx.broken.append("correspondence assumption (parent / docsources parameters): " + m)
     cases = list(exhaustive_fault_cases(ctx.quick)) + list(wrapper_fault_cases())
     ctx.extra["exhaustive_fault_cases"] = len(cases)
-    nrand = 1200 if ctx.quick else 25000
+    nrand = 900 if ctx.quick else 25000
     cases += [random_fault_case(ctx.rng) for _ in range(nrand)]
     reqs: List[str] = []
     impls: List[str] = []
@@ -2252,7 +2284,7 @@ def run(ctx: Ctx) -> None:
     ctx.compare("fault-injection~Docstring.run", reqs, impls, pay)
     ctx.exhaustive = True
     # ---- (b) real parsers
-    nstr = 260 if ctx.quick else 800
+    nstr = 180 if ctx.quick else 800
     limit = 8.0 if ctx.quick else 20.0     # per entry-point call; a case stops at its first hang
     max_hangs = 3                            # after that the violation is established: do not burn the tier's budget
     hangs = 0
